@@ -200,10 +200,10 @@ fn kmp_family(ctx: &mut Ctx, name: &str, k: u64, maxpat: u32, maxtext: u32) {
 fn main() {
     let mut ctx = Ctx::new("C20", Level::ModelChecking);
     ctx.assume("grouping map: keys {0,1}, values {0,1}; a value that is never assigned does not exist (no removal operation in the public API)");
-    ctx.assume("not judged, only recorded as outcome classes (the property statement does not speak about them): the bool returned by insert, `==` between the original and from_iter(iter_all()), iter_all being unchanged by a replay, which numbers the interner uses as keys, resolve of never-issued keys, Matcher::substring(), everything about Nevec");
+    ctx.assume("not judged, only recorded as outcome classes (the property statement does not speak about them): the bool returned by insert, `==` between the original and from_iter(iter_all()), iter_all being unchanged by a replay, which numbers the interner uses as keys, Matcher::substring(), everything about Nevec");
     ctx.assume("end_group: only accepted (Ok) versus refused (Err) is compared; a refusal must leave the visible contents unchanged");
     ctx.assume("HashMap iteration order inside the subject (RandomState) is not controlled; every failing case is re-executed 5 times and any failing execution counts");
-    ctx.assume("interner: resolve is observed after every step for every issued key (resolve takes &self, so this subsumes resolve as a history operation); a serde round trip must keep every issued key valid (anchor: deserialisation rebuild)");
+    ctx.assume("interner: resolve is observed after every step for every issued key, and must be None for the first never-issued key, the one after it, key 1 and u32::MAX when not issued (resolve takes &self, so this subsumes resolve as a history operation); a serde round trip must keep every issued key valid (anchor: deserialisation rebuild)");
     ctx.assume("tags: sequentially consistent interleavings at the seam's acquire/release points (shuttle); data races are outside this engine (DESIGN §5)");
     if let Err(e) = self_validate() {
         ctx.machinery_error(e);
@@ -348,6 +348,7 @@ fn main() {
             ("interner_empty_string_interned_after_others", "the empty string gets a key when the buffer is not empty"),
             ("interner_existing_string_after_deserialise", "dedup map rebuilt by deserialisation finds an old string"),
             ("interner_new_string_after_deserialise", "a new string is interned into a deserialised interner"),
+            ("resolve_of_first_unissued_key", "resolve of the first never-issued key (and the next, the smallest, the largest) was required to be None"),
             ("interner_multibyte_string_interned_at_nonzero_offset", "a string with multi-byte characters starts inside the buffer"),
             ("interner_string_interned_after_a_multibyte_string", "byte offsets and character counts of the buffer differ when a string is added"),
             ("kmp_pattern_has_border", "the pattern has a proper prefix that is also a suffix"),
